@@ -150,7 +150,7 @@ func runListener(c LCase) vh.Result {
 	lastHead := lhead(len(c.Recs) + 1)
 	write(lastHead+"\n", 0)
 	_ = conn.Close()
-	deadline := time.Now().Add(10 * time.Second)
+	deadline := time.Now().Add(30 * time.Second)
 	var got [][]byte
 	for {
 		got = recv.snapshot()
@@ -158,7 +158,7 @@ func runListener(c LCase) vh.Result {
 			break
 		}
 		if time.Now().After(deadline) {
-			res.Violation = vh.Fail("listener:record-lost", "the last record did not come out within 10 s of the close; %d messages emitted", len(got))
+			res.Violation = vh.Fail("listener:record-lost", "the last record did not come out within 30 s of the close; %d messages emitted", len(got))
 			res.NonTrivial = true
 			return res
 		}
@@ -310,7 +310,7 @@ func runListenerSingle(c SCase) vh.Result {
 		time.Sleep(T * time.Duration(r.AfterPc) / 100)
 	}
 	_ = conn.Close()
-	deadline := time.Now().Add(10 * time.Second)
+	deadline := time.Now().Add(30 * time.Second)
 	var got [][]byte
 	for {
 		got = recv.snapshot()
